@@ -15,7 +15,7 @@ if of_01.deferredSender is None:
   of_01.DeferredSender.start = lambda self: None
   of_01.deferredSender = of_01.DeferredSender()
 
-LENS = dict(huge=40000, max=65535, h8=8, e9=9, c12=12, m16=16, f72=72, f88=88, p64=64, big=1518, b2040=2040, b2047=2047,
+LENS = dict(r80=80, h16=16, huge=40000, max=65535, h8=8, e9=9, c12=12, m16=16, f72=72, f88=88, p64=64, big=1518, b2040=2040, b2047=2047,
             b2048=2048, b2049=2049, b2056=2056)
 MAC = "00:00:00:00:00:07"
 
@@ -30,6 +30,10 @@ def build(side, kind, xid):
   if side == "ctl":       # switch -> controller messages
     if kind == "h8":
       m = rb.barrier_reply(xid)
+    elif kind == "r80":
+      m = rb.features_reply(0x0102030405060708, ports=[rb.phy_port(3, MAC, "p3")], n_buffers=256, xid=xid)
+    elif kind == "h16":
+      m = rb.msg(rb.HELLO, b"\x00\x01\x00\x08\x00\x00\x00\x12", xid)     # a HELLO may carry a body (OpenFlow 1.0 5.5.1)
     elif kind == "e9":
       m = rb.echo_request(b"\x5a", xid)
     elif kind == "c12":
@@ -45,6 +49,8 @@ def build(side, kind, xid):
   else:                   # controller -> switch messages
     if kind == "h8":
       m = rb.barrier_request(xid)
+    elif kind == "h16":
+      m = rb.msg(rb.HELLO, b"\x00\x01\x00\x08\x00\x00\x00\x12", xid)
     elif kind == "e9":
       m = rb.echo_request(b"\xa5", xid)
     elif kind == "c12":
@@ -176,6 +182,10 @@ class Adapter(object):
       # for those compare type and length, for all others the exact bytes
       if t in (rb.FLOW_MOD, rb.FLOW_REMOVED):
         if orig[1] != t or len(raw) != len(orig):
+          return {"corrupted_delivery": [t, xid]}
+      elif t == rb.HELLO:
+        # the body of a HELLO is to be ignored by the receiver: the delivered object does not carry it
+        if orig[1] != t:
           return {"corrupted_delivery": [t, xid]}
       elif raw != orig:
         return {"corrupted_delivery": [t, xid]}
